@@ -49,9 +49,10 @@ pub(crate) fn pos_to_offset(input: &str, pos: Position) -> usize {
         let (_, line_end) = input.split_at(offset);
         if line_end.starts_with("\r\n") {
             offset += 2; // Windows
-        } else {
+        } else if line_end.starts_with('\n') {
             offset += 1; // Linux, Mac
         }
+        // Otherwise this was the last line and it has no line ending: stay at the end of input.
     }
     if let Some(last_line) = input.lines().nth(pos.line as usize)
         && !last_line.is_empty()
@@ -59,10 +60,13 @@ pub(crate) fn pos_to_offset(input: &str, pos: Position) -> usize {
         if let Some((p, _)) = last_line.char_indices().nth(pos.character as usize) {
             offset += p
         } else {
-            offset += last_line.char_indices().last().unwrap().0 + 1
+            // Position past the end of the line: the offset of the end of the line, which is
+            // always a character boundary (the last character may be longer than one byte).
+            offset += last_line.len()
         }
     }
-    offset
+    // Never leave the text
+    offset.min(input.len())
 }
 
 pub(crate) fn extract_text_range(input: &str, rng: Rng) -> &str {
